@@ -3,10 +3,10 @@ package main
 // entvalue.go — the nil-safety obligations on variable.Value that several properties share (C02.R5, C03.R6, C06.R1-R3).
 
 import (
-	"strconv"
 	"go/ast"
 	"go/token"
 	"go/types"
+	"strconv"
 	"strings"
 )
 
